@@ -25,7 +25,8 @@ VERIFICATION_MESSAGES = (
     "possible truncation", "value may be out of range", "failed this postcondition", "failed precondition",
     "not all errors may have been reported", "unable to prove post-condition of closure", "post-condition of closure",
 )
-INFRA_MESSAGES = ("resource limit", "rlimit", "not supported", "unsupported", "Verus does not", "internal error", "panicked")
+INFRA_MESSAGES = ("resource limit", "rlimit", "not supported", "unsupported", "Verus does not", "internal error", "panicked",
+                  "unexpected token", "expected `", "expected one of", "unexpected end", "cannot parse", "unexpected eof", "expected identifier", "expected expression")
 
 
 def parse_diagnostics(stderr):
